@@ -124,22 +124,33 @@ func (n *c07Node) render() string {
 	case cFor:
 		return "for (" + v + " = 0; " + v + " < $." + n.nname + "; " + v + " = p('post" + n.id + "', " + v + " + 1)) { " + body + " } print 'z" + n.id + "', " + v + "; "
 	case cForInArr:
-		return "for (" + v + " in $.arr) { print " + v + "; " + body + " } print 'z" + n.id + "'; "
+		return "for (" + v + " in $.arr" + n.coll() + ") { print " + v + "; " + body + " } print 'z" + n.id + "'; "
 	case cForInArr2:
-		return "for (" + v + ", " + v + "i in $.arr) { print " + v + ", " + v + "i; " + body + " } print 'z" + n.id + "'; "
+		return "for (" + v + ", " + v + "i in $.arr" + n.coll() + ") { print " + v + ", " + v + "i; " + body + " } print 'z" + n.id + "'; "
 	case cForInObj:
-		return "for (" + v + ", " + v + "v in $.obj) { print " + v + ", " + v + "v; " + body + " } print 'z" + n.id + "'; "
+		return "for (" + v + ", " + v + "v in $.obj" + n.coll() + ") { print " + v + ", " + v + "v; " + body + " } print 'z" + n.id + "'; "
 	case cForInStr:
-		return "for (" + v + ", " + v + "i in $.str) { print " + v + ", " + v + "i; " + body + " } print 'z" + n.id + "'; "
+		return "for (" + v + ", " + v + "i in $.str" + n.coll() + ") { print " + v + ", " + v + "i; " + body + " } print 'z" + n.id + "'; "
 	}
 	return "{ " + body + " } print 'z" + n.id + "'; "
 }
 
-var c07Arr = []string{"p", "q"}
-var c07ObjKeys = []string{"ka", "kb"} // iterated in sorted order
-var c07ObjVals = []string{"va", "vb"}
+// every nesting level iterates collections of its own, the inner ones larger than the
+// outer ones (an iteration must not be disturbed by another one running inside it)
+var c07Arrs = [][]string{{"p", "q"}, {"r", "s", "t"}, {"p", "q"}}
+var c07ObjKeyss = [][]string{{"ka", "kb"}, {"ja", "jb", "jc"}, {"ka", "kb"}} // iterated in sorted order
+var c07ObjValss = [][]string{{"va", "vb"}, {"wa", "wb", "wc"}, {"va", "vb"}}
+var c07Strs = []string{"xy", "uvw", "xy"}
 
-const c07Str = "xy"
+func (n *c07Node) lvl() int { return int(n.id[0]-'1') % 3 }
+
+// coll is the suffix of the collection names of the node's level ("" / "2" / "").
+func (n *c07Node) coll() string {
+	if n.lvl() == 1 {
+		return "2"
+	}
+	return ""
+}
 
 // body runs the body of n once; returns the signal.
 func (n *c07Node) body(c *c07Ctx) int {
@@ -226,19 +237,19 @@ func (n *c07Node) exec(c *c07Ctx) int {
 		c.out += "z" + n.id + " " + itoa(post) + "\n"
 		return sigNone
 	case cForInArr:
-		if s, _ := loop(len(c07Arr), func(i int) { c.out += c07Arr[i] + "\n" }); s != sigNone {
+		if s, _ := loop(len(c07Arrs[n.lvl()]), func(i int) { c.out += c07Arrs[n.lvl()][i] + "\n" }); s != sigNone {
 			return s
 		}
 	case cForInArr2:
-		if s, _ := loop(len(c07Arr), func(i int) { c.out += c07Arr[i] + " " + itoa(i) + "\n" }); s != sigNone {
+		if s, _ := loop(len(c07Arrs[n.lvl()]), func(i int) { c.out += c07Arrs[n.lvl()][i] + " " + itoa(i) + "\n" }); s != sigNone {
 			return s
 		}
 	case cForInObj:
-		if s, _ := loop(len(c07ObjKeys), func(i int) { c.out += c07ObjKeys[i] + " " + c07ObjVals[i] + "\n" }); s != sigNone {
+		if s, _ := loop(len(c07ObjKeyss[n.lvl()]), func(i int) { c.out += c07ObjKeyss[n.lvl()][i] + " " + c07ObjValss[n.lvl()][i] + "\n" }); s != sigNone {
 			return s
 		}
 	case cForInStr:
-		if s, _ := loop(len(c07Str), func(i int) { c.out += c07Str[i:i+1] + " " + itoa(i) + "\n" }); s != sigNone {
+		if s, _ := loop(len(c07Strs[n.lvl()]), func(i int) { c.out += c07Strs[n.lvl()][i:i+1] + " " + itoa(i) + "\n" }); s != sigNone {
 			return s
 		}
 	case cBlock:
@@ -249,6 +260,11 @@ func (n *c07Node) exec(c *c07Ctx) int {
 	c.out += "z" + n.id + "\n"
 	return sigNone
 }
+
+// the traced condition / post-expression functions run loops of their own (over an object,
+// an array and a string) while the caller's loops are in progress
+const c07Traced = "function t(n, v) { for (tk, tv in $.obj2) { tq = tk } for (te in $.arr2) { tq = te } print n; return v }\n" +
+	"function p(n, v) { for (pk in $.obj2) { pq = pk } for (pc in $.str2) { pq = pc } print n; return v }\n"
 
 func c07Build(c *c07Ctx, depth int, level int, name string) *c07Node {
 	n := &c07Node{kind: vh.Choose(name+"kind", nConstructs), id: itoa(level)}
@@ -291,7 +307,8 @@ func (n *c07Node) innermost() *c07Node {
 // every kind at the innermost position, at rule level and inside a function.
 func VHC07Nesting() {
 	c := &c07Ctx{doc: map[string]any{
-		"arr": []any{"p", "q"}, "obj": map[string]any{"kb": "vb", "ka": "va"}, "str": c07Str,
+		"arr": []any{"p", "q"}, "obj": map[string]any{"kb": "vb", "ka": "va"}, "str": c07Strs[0],
+		"arr2": []any{"r", "s", "t"}, "obj2": map[string]any{"jc": "wc", "jb": "wb", "ja": "wa"}, "str2": c07Strs[1],
 	}}
 	depth := 2
 	if vh.Thorough() {
@@ -315,9 +332,9 @@ func VHC07Nesting() {
 	text := root.render()
 	var prog string
 	if c.inFn {
-		prog = "function t(n, v) { print n; return v }\nfunction p(n, v) { print n; return v }\nfunction f() { print 'f'; " + text + "print 'g'; return 1 }\n{ print 's'; r = f(); print 't', r }\n{ print 'second rule' }\nEND { print 'end' }"
+		prog = c07Traced + "function f() { print 'f'; " + text + "print 'g'; return 1 }\n{ print 's'; r = f(); print 't', r }\n{ print 'second rule' }\nEND { print 'end' }"
 	} else {
-		prog = "function t(n, v) { print n; return v }\nfunction p(n, v) { print n; return v }\n{ print 's'; " + text + "print 't' }\n{ print 'second rule' }\nEND { print 'end' }"
+		prog = c07Traced + "{ print 's'; " + text + "print 't' }\n{ print 'second rule' }\nEND { print 'end' }"
 	}
 	got, k := runProg(prog, c.doc)
 
